@@ -702,12 +702,14 @@ def sticky_format_changes(f):
     return out
 
 
-def rule_h_header_stream_format_unchanged(ctx, wfns, control_fns):
-    """All numbers of a header are written with the stream's default formatting (6 significant digits, general notation) - the reader and
-    the quantisation clauses above count on that.  A helper that switches the shared header stream to fixed notation or another precision
-    changes how EVERYTHING written afterwards looks (scale factors of 3e-05 become 0.000).  Hence: the header writer and its helpers
-    leave the formatting state of the stream they are handed as it was - no sticky manipulator or formatting member call on it, unless
-    the previous state is put back (flags()/precision()/copyfmt() of a saved value) on every path to the return."""
+def rule_h_header_stream_format_unchanged(ctx, wfns, control_fns, rule="C10.h-header-stream-format-unchanged"):
+    """All numbers of a header are written with at least the stream's default formatting (6 significant digits, general notation) - the
+    reader and the quantisation clauses above count on that.  A helper that switches the shared header stream to fixed notation or a lower
+    precision changes how EVERYTHING written afterwards looks (scale factors of 3e-05 become 0.000).  Hence: a formatting change that can
+    LOSE information for later numbers (fixed/hexfloat notation, hex/oct/another base, boolalpha, a precision below 6 or one that is not
+    a constant, setf()/flags()/fill()/imbue() with anything) is put back (flags()/precision()/copyfmt() of a saved value) on every path
+    to the return.  Changes that only add digits or change nothing a reader notices (precision >= 6 by a constant, scientific,
+    defaultfloat, dec, showpoint, showpos, uppercase, adjustment) may stay - leaving them on is behaviour-preserving."""
     from engine.cfg import CFG as _CFG
 
     n = 0
@@ -758,12 +760,26 @@ def rule_h_header_stream_format_unchanged(ctx, wfns, control_fns):
                 return None
 
             KIND = {"precision()": "precision", "std::setprecision": "precision", "fill()": "fill", "std::setfill": "fill", "imbue()": "locale"}
+            HARMLESS = ("std::scientific", "std::defaultfloat", "std::dec", "std::showpoint", "std::noshowpoint", "std::showpos", "std::uppercase", "std::left", "std::right", "std::internal")
+
+            def harmless(m, what):
+                if what in HARMLESS:
+                    return True
+                if what in ("precision()", "std::setprecision"):
+                    a = m.call_args() if m.k == "CXXMemberCallExpr" else m.c[-1].strip().call_args()
+                    a = a[0].strip() if a else None
+                    if a is None:
+                        return True  # precision() without argument only reads
+                    v = a.get("cv") if "cv" in a.d else _const_of(a)
+                    return isinstance(v, (int, float)) and v >= 6
+                return False
+
             restores, changes = {}, []
             for m, what in shared:
                 sv = saved_by(m) if what in ("flags()", "precision()", "copyfmt()") else None
                 if sv is not None and sv == what[:-2] or (what == "copyfmt()" and sv == "copyfmt"):
                     restores[m.i] = "all" if what == "copyfmt()" else what[:-2]
-                else:
+                elif not harmless(m, what):
                     changes.append((m, KIND.get(what, "flags")))
             bad = []
             for m, kind in changes:
@@ -772,8 +788,8 @@ def rule_h_header_stream_format_unchanged(ctx, wfns, control_fns):
                 if g is None or not acc or cfg.must_pass_before_exit([g], lambda x: x.i in acc and x.i != g.i) is not None:
                     bad.append(m)
             ok = not bad
-            det = "formatting is changed and the saved state is put back on every path to the return" if ok else "the header stream is switched to `%s` and left that way: every number written to the header afterwards (scale factors, offsets, sizes) is formatted differently from what the reader and the quantisation bound assume" % ", ".join(sorted({w for m_, w in shared if any(m_ is b for b in bad)}))
-        ctx.ob("C10.h-header-stream-format-unchanged", f.qn + "(" + f.sig[:30] + ")", "formatting-state", ok, (shared[0][0] if shared else f).where(), det)
+            det = ("formatting is changed and the saved state is put back on every path to the return" if changes else "only changes that add digits (or that a reader does not notice) are made to the header stream") if ok else "the header stream is switched to `%s` and left that way: every number written to the header afterwards (scale factors, offsets, sizes) is formatted differently from what the reader and the quantisation bound assume" % ", ".join(sorted({w for m_, w in shared if any(m_ is b for b in bad)}))
+        ctx.ob(rule, f.qn + "(" + f.sig[:30] + ")", "formatting-state", ok, (shared[0][0] if shared else f).where(), det)
         n += 1
     # positive control: the matcher must see the manipulators ExamInfo::parameter_info streams into its own string stream
     ctrl = [c for g in control_fns if g.body is not None and g.short == "parameter_info" for c in sticky_format_changes(g)]
@@ -846,12 +862,12 @@ def reader_value_lists(hfns):
     return out
 
 
-def rule_i_enumerated_values_agree(ctx, wfns, hfns):
+def rule_i_enumerated_values_agree(ctx, wfns, hfns, rule="C10.i-enumerated-values-agree", writers=("write_basic_interfile_image_header", "write_interfile_")):
     """Keys whose value is one of a list: the reader stores the INDEX of the value in its list and (for patient orientation/rotation)
     casts that index to the enumeration.  (1) every literal value the writer can emit for such a key is in the reader's list;
     (2) where the writer maps enumerators to strings by a switch, the string for enumerator e is the list entry at index e, distinct
     enumerators are written distinctly, and every list entry except the reader's default has a case."""
-    RULE = "C10.i-enumerated-values-agree"
+    RULE = rule
     vl = reader_value_lists(hfns)
     ctx.stats["reader_value_lists"] = len(vl)
     if len(vl) < 6:
@@ -872,7 +888,7 @@ def rule_i_enumerated_values_agree(ctx, wfns, hfns):
                     dflt.setdefault(fr, set()).add(int(cv))
     n = 0
     for f in wfns:
-        if f.body is None or not f.short.startswith(("write_basic_interfile_image_header", "write_interfile_")):
+        if f.body is None or not f.short.startswith(tuple(writers)):
             continue
         defs = LocalDefs(f)
         streams = sorted((x.line, x.get("d")) for x in f.walk() if x.k == "VarDecl" and "ofstream" in (x.get("t") or ""))
@@ -1029,17 +1045,18 @@ FULL_PRECISION_KEYS = {
 }
 
 
-def rule_k_full_precision(ctx, wfns):
+def rule_k_full_precision(ctx, wfns, rule="C10.k-quantities-written-with-full-precision", writers=("write_basic_interfile_image_header", "write_interfile_"), keys=None):
     """The numbers above are written with at least max_digits10 digits of their type: the emission is dominated by a precision()
     change of the header stream to >= 9 (float) / 17 (double) digits with no other precision change in between."""
-    RULE = "C10.k-quantities-written-with-full-precision"
+    RULE = rule
     from engine.cfg import CFG as _CFG
 
+    keys = keys or FULL_PRECISION_KEYS
     n = 0
     for f in wfns:
-        if f.body is None or not f.short.startswith(("write_basic_interfile_image_header", "write_interfile_")):
+        if f.body is None or not f.short.startswith(tuple(writers)):
             continue
-        ems = [e for e in _emissions(f) if e[0] in FULL_PRECISION_KEYS]
+        ems = [e for e in _emissions(f) if e[0] in keys]
         if not ems:
             continue
         cfg = _CFG(f)
@@ -1074,7 +1091,7 @@ def rule_k_full_precision(ctx, wfns):
                 continue
             need = 17 if "double" in (val[0].strip().type or "") else 9
             e = in_graph(top)
-            ok, det = False, "`%s` is written with the stream's default precision (6 digits) - %s" % (k, FULL_PRECISION_KEYS[k])
+            ok, det = False, "`%s` is written with the stream's default precision (6 digits) - %s" % (k, keys[k])
             for pc, digits in pcalls:
                 g = in_graph(pc)
                 if g is None or e is None or g.i == e.i or not cfg.dominates(g, e):
@@ -1085,7 +1102,7 @@ def rule_k_full_precision(ctx, wfns):
                 if digits is not None and digits >= need:
                     ok, det = True, "written with precision %d >= max_digits10 of its type (%d)" % (digits, need)
                 else:
-                    det = "`%s` is written with precision %s, fewer than the %d digits needed to read the same %s back - %s" % (k, digits, need, "double" if need == 17 else "float", FULL_PRECISION_KEYS[k])
+                    det = "`%s` is written with precision %s, fewer than the %d digits needed to read the same %s back - %s" % (k, digits, need, "double" if need == 17 else "float", keys[k])
             ctx.ob(RULE, f.qn, "key:" + k, ok, top.where(), det)
             n += 1
     return n
